@@ -108,6 +108,9 @@ def _search_task(check_id: str, tier: str, shard: int, seed: int, exclude: List[
     import hypothesis
     from hypothesis import HealthCheck, Phase, given, settings
 
+    import warnings
+
+    warnings.simplefilter("ignore")
     check = load_check(check_id)
     check.setup_worker()
     excl = frozenset(exclude)
